@@ -54,6 +54,7 @@ CONFIGS = {
     # name: (kwargs, Kq, Kt, tiers)
     "MT48LC16M16_sdr_100MHz": (dict(module_name="MT48LC16M16", clk_freq=100e6, rate="1:1", read_latency=2), 44, 60, "qt"),
     "MT41K128M16_ddr3_1to4_100MHz": (dict(module_name="MT41K128M16", clk_freq=100e6, rate="1:4", speedgrade="1600", read_latency=3), 50, 64, "qt"),
+    "MT41K128M16_ddr3_1to4_200MHz": (dict(module_name="MT41K128M16", clk_freq=200e6, rate="1:4", speedgrade="1600", read_latency=3), 40, 80, "qt"),
     "MT47H64M16_ddr2_1to2_133MHz": (dict(module_name="MT47H64M16", clk_freq=133e6, rate="1:2", read_latency=3), 0, 60, "t"),
     "MT46V32M16_ddr_1to2_100MHz": (dict(module_name="MT46V32M16", clk_freq=100e6, rate="1:2", read_latency=3), 0, 56, "t"),
     "MT41K128M16_ddr3_1to4_125MHz_noap": (dict(module_name="MT41K128M16", clk_freq=125e6, rate="1:4", speedgrade="1600", read_latency=3,
